@@ -5,7 +5,7 @@
 (* from tools/gen_auth.py (DESIGN.md Appendix B).  A recorded cell carries  *)
 (* `cell` (instruction name in the table) and `mode` (account state).      *)
 (***************************************************************************)
-EXTENDS Base, AuthTable
+EXTENDS Base, AuthTable, FiniteSets
 
 FreeKinds == {"free", "signer", "payer", "new"}
 FrozenOps == {"deposit", "withdraw", "close_balance", "liquidate", "withdraw_emissions", "kamino_deposit", "kamino_withdraw", "drift_deposit", "drift_withdraw", "solend_deposit", "solend_withdraw"}
@@ -83,7 +83,19 @@ C08Signers(pre, e, post, line) ==
            /\ \A an \in DOMAIN post.accts : ~Bit(post.accts[an].flags, ACC_RECEIVERSHIP) /\ ~Bit(post.accts[an].flags, ACC_DELEVERAGE)
            /\ \A r \in DOMAIN post.liqrec : post.liqrec[r].receiver = "none", [ev |-> e.ev])
 
+\* EXT (beyond the listed properties; printed as drift of the specification, never as a violation): groups are isolated from
+\* each other - whatever a single instruction changes (banks, accounts, group records) belongs to one group
+EXTGroups(pre, e, post, line) ==
+  (Ok(e) /\ e.ev # "tx" /\ e.ev # "reset" /\ Has(pre, "banks") /\ Has(post, "banks") /\ Has(pre, "accts") /\ Has(post, "accts")
+   /\ Has(pre, "groups") /\ Has(post, "groups")) =>
+    LET cb == {b \in DOMAIN post.banks : ~Has(pre.banks, b) \/ pre.banks[b] # post.banks[b]}
+        ca == {a \in DOMAIN post.accts : ~Has(pre.accts, a) \/ pre.accts[a] # post.accts[a]}
+        cg == {g \in DOMAIN post.groups : ~Has(pre.groups, g) \/ pre.groups[g] # post.groups[g]}
+        gs == {post.banks[b].group : b \in cb} \cup {post.accts[a].group : a \in ca} \cup cg
+    IN Chk("EXT", "one_instruction_touches_one_group", line, Cardinality(gs) <= 1, [ev |-> e.ev, groups |-> gs])
+
 C08(pre, e, post, line) ==
+  /\ EXTGroups(pre, e, post, line)
   /\ C08Roles(pre, e, post, line)
   /\ C08Move(pre, e, post, line)
   /\ C08Signers(pre, e, post, line)
